@@ -81,7 +81,6 @@ package main
 
 // Evidence predicates: uninterpreted; each one is introduced only by the postcondition of the function that
 // performs the corresponding check, whose own contract (below) says what was checked.
-//@ ghost func kmCertUser(state *RuntimeState, chains [][]*x509.Certificate, user string, notBefore int64) bool
 //@ ghost func ipCertUser(state *RuntimeState, chains [][]*x509.Certificate, remoteAddr string, user string) bool
 //@ ghost func passwordAccepted(checker pwauth.PasswordAuthenticator, user string, password string) bool
 //@ ghost var ghostPwTokens int
@@ -103,9 +102,19 @@ package main
 //@   ensures err == nil ==> viaCookie(state, ai) || viaTLS(state, r, ai) || viaPassword(state, ai)           #C06.established @C06,C01,C04
 //@   ensures err == nil && r.Method != "GET" && getOriginOrReferrer(r) != "" && r.Host != "" ==> urlHostOf(getOriginOrReferrer(r)) == r.Host  #C06.csrf @C06
 
+// SHA-256 fingerprint of the SSH encoding of a public key (uninterpreted; getKeyFingerprint computes it)
+//@ ghost func keyFP(k any) string
+//@ func getKeyFingerprint
+//@   assume ret1 == nil ==> ret0 == keyFP(key)
+//@ opaque func keymasterKeyFP(state *RuntimeState, fp string) bool = (exists i int :: 0 <= i && i < len(state.KeymasterPublicKeys) && fp == keyFP(state.KeymasterPublicKeys[i]))
+//@ opaque func deniedFP(state *RuntimeState, fp string) bool = (exists i int :: 0 <= i && i < len(state.Config.DenyTrustData.KeyDenyFPsshSha256) && fp == state.Config.DenyTrustData.KeyDenyFPsshSha256[i])
+// "the verified chains contain a leaf for `user`, issued at notBefore, signed directly by a published keymaster key, whose own key is not deny-listed"
+//@ opaque func kmCertUser(state *RuntimeState, chains [][]*x509.Certificate, user string, notBefore int64) bool = (exists c int :: 0 <= c && c < len(chains) && len(chains[c]) >= 2 && user == chains[c][0].Subject.CommonName && notBefore == timeNanos(chains[c][0].NotBefore) && keymasterKeyFP(state, keyFP(chains[c][1].PublicKey)) && !deniedFP(state, keyFP(chains[c][0].PublicKey)))
 //@ func (*RuntimeState).getUsernameIfKeymasterSigned
 //@   results user, notBefore, err
-//@   ensures user != "" ==> err == nil && kmCertUser(state, VerifiedChains, user, timeNanos(notBefore))
+//@   reveal kmCertUser keymasterKeyFP deniedFP
+//@   ensures user != "" ==> err == nil && kmCertUser(state, VerifiedChains, user, timeNanos(notBefore))      #C06.km-cert @C06,C03
+//@   loop 2 (userPubKeyFP string, rangeindex int) invariant (forall j int :: 0 <= j && j <= rangeindex ==> userPubKeyFP != state.Config.DenyTrustData.KeyDenyFPsshSha256[j])  #C06.km-deny-scan @C06
 //@ func (*RuntimeState).getUsernameIfIPRestricted
 //@   results user, notBefore, userErr, err
 //@   ensures userErr == nil && err == nil ==> ipCertUser(state, VerifiedChains, r.RemoteAddr, user)
